@@ -23,7 +23,7 @@ def gen_session(prop: str, tier: str, seed: int) -> dict:
         n = rng.pick([48, 64, 96])      # long recurrences: many more iterations than any window or default
     herm = rng.chance(0.65)
     if herm:
-        style = rng.wpick([('random', 4), ('diag', 2), ('blockdiag', 2.5), ('identity', 0.7), ('projector', 1), ('degenerate', 1.5), ('real', 1.5), ('lowrank', 1)])
+        style = rng.wpick([('random', 4), ('diag', 2), ('blockdiag', 2.5), ('identity', 0.7), ('projector', 1), ('degenerate', 1.5), ('real', 1.5), ('lowrank', 1), ('hopping', 1.2)])
     else:
         style = rng.wpick([('random', 4), ('triangular', 1), ('nilpotent', 1), ('blockdiag', 2), ('real', 1.5), ('identity', 0.4), ('normal', 1)])
     faultfree = rng.chance(0.25)
@@ -46,7 +46,12 @@ def gen_session(prop: str, tier: str, seed: int) -> dict:
             kind, m = ops[-1]['op'], ops[-1]['m']
         mag = rng.uniform(0.05, 4.0)
         kd = rng.pick(['imag', 'imag', 'real', 'complex'])
-        if kd == 'imag':
+        if style == 'hopping' and rng.chance(0.5):
+            kd = 'resonant'
+        if kd == 'resonant':
+            # |dt| * beta_0 an exact multiple of pi: error estimates based on a single matrix element vanish there
+            dt = [0.0, rng.pick([-1, 1]) * math.pi * rng.pick([1, 1, 2, 0.5])]
+        elif kd == 'imag':
             dt = [0.0, rng.pick([-1, 1]) * mag]
         elif kd == 'real':
             dt = [rng.pick([-1, 1]) * mag, 0.0]
@@ -59,7 +64,7 @@ def gen_session(prop: str, tier: str, seed: int) -> dict:
             if cands:
                 cb = rng.pick(cands)
         op = {'op': kind, 'm': m, 'dt': dt, 'cb': cb, 'vsub': rng.sub(),
-              'vstyle': rng.wpick([('generic', 5), ('real', 1.5), ('confined', 3), ('eigvec', 1), ('unit', 1)]),
+              'vstyle': rng.wpick([('generic', 5), ('real', 1.5), ('confined', 3), ('eigvec', 1), ('unit', 1 if style != 'hopping' else 8)]),
               'confine': rng.randrange(1, n + 1), 'hermitian_flag': bool(herm and rng.chance(0.75)), 'numeig': rng.randrange(1, 4),
               'persist': rng.chance(0.3), 'step': rng.pick(['v_inplace', 'v_inplace', 'A_inplace', 'none']),
               'vscale': rng.pick([1.0, 1.0, 0.25, 8.0, 1e-3, 1e3]), 'vdtype': rng.pick(['complex', 'complex', 'float', 'float', 'int'])}
@@ -105,6 +110,9 @@ def make_matrix(cfg):
                 B = dyadic((B + B.conj().T) / 2, 4)
             A[p:p + s, p:p + s] = B
             p += s
+    elif style == 'hopping':
+        # tight-binding chain: constant (zero) diagonal, unit hopping - Lanczos from an end site gives alpha = 0, beta = 1
+        A = (np.diag(np.ones(n - 1), 1) + np.diag(np.ones(n - 1), -1)).astype(complex) if n > 1 else np.zeros((1, 1), dtype=complex)
     elif style == 'triangular':
         A = np.triu(rnd((n, n)))
     elif style == 'nilpotent':
@@ -121,7 +129,7 @@ def make_matrix(cfg):
         A = A.astype(complex)
     if herm:
         A = (A + A.conj().T) / 2
-    if style not in ('identity', 'projector', 'diag', 'degenerate', 'blockdiag', 'nilpotent'):
+    if style not in ('identity', 'projector', 'diag', 'degenerate', 'blockdiag', 'nilpotent', 'hopping'):
         nrm = np.linalg.norm(A, 2)
         if nrm > 0:
             A = A * (cfg['norm'] / nrm)
@@ -187,7 +195,10 @@ class KRSession(SessionBase):
             v = g.normal(size=n).astype(complex) if st != 'unit' else None
             if v is None:
                 v = np.zeros(n, dtype=complex)
-                v[int(op['confine']) % n] = 1.0
+                k_ = int(op['confine']) % n
+                if self.cfg['style'] == 'hopping' and int(op['vsub']) % 3 != 0:
+                    k_ = 0 if int(op['vsub']) % 2 == 0 else n - 1     # an end site of the chain
+                v[k_] = 1.0
         elif st == 'confined':
             v = np.zeros(n, dtype=complex)
             k = min(n, max(1, int(op['confine'])))
@@ -360,8 +371,9 @@ class KRSession(SessionBase):
         v, m, cb, cls, K, normA, Q = self.prep(op)
         vb = v.copy()
         dt = complex(op['dt'][0], op['dt'][1])
-        if abs(dt) * max(normA, 1e-300) > 4:
-            dt = dt * 4 / (abs(dt) * normA)
+        lim = 13.0 if self.cfg['style'] == 'hopping' else 4.0
+        if abs(dt) * max(normA, 1e-300) > lim:
+            dt = dt * lim / (abs(dt) * normA)
         hflag = bool(op.get('hermitian_flag')) and self.cfg['herm']
         out, exc = self.call(op, lambda: self.ptn.expm_krylov(cb, v, dt, m, hermitian=hflag))
         if exc is not None:
